@@ -21,7 +21,7 @@ def c2(ctx):
 
 
 def c3(ctx):
-    records.enum_dispatch(ctx, "simfile.convert:_should_copy_property", "behavior")
+    records.enum_dispatch(ctx, "simfile.convert:_should_copy_property", "behavior", enum_cls="simfile.convert.InvalidPropertyBehavior")
     convert.policy_dispatch(ctx)
     fwd.fwd_options(ctx, ["invalid_property_behaviors", "simfile_template", "chart_template"], floor=6,
                     scope=[f.fq for f in ctx.p.nontest_functions() if f.module.name == "simfile.convert"])
